@@ -248,9 +248,44 @@ func init() {
 			do("newpt", f[0], f[1], f[2])
 		}
 	})
+	// reTruncPoint: a stored point whose latitude would move again if it were stored a second time (SetLat is not idempotent in
+	// binary64, known finding D17) AND whose row at zoom h would change with it: a library that copies its argument points
+	// through the constructor answers for another point. Found by search around row boundaries of fine zooms.
+	reTruncPoint := func(h, v int64) (string, bool) {
+		hLimit := math.Pow(2, float64(h))
+		for t := 0; t < 400; t++ {
+			k := 1 + rng.Int63n(pow2(h)-1)
+			bl := oracleRowLat(float64(k), hLimit)
+			lat := bl + []float64{4e-11, 7e-11, 1.1e-10, -4e-11, -7e-11, -1.1e-10}[rng.Intn(6)]
+			rlon, ralt := randLon(h), randAlt(v)
+			p, err := object.NewPoint(rlon, lat, ralt)
+			if err != nil {
+				continue
+			}
+			q, _ := object.NewPoint(p.Lon(), p.Lat(), p.Alt())
+			if q.Lat() == p.Lat() {
+				continue
+			}
+			a, e1 := shape.GetExtendedSpatialIdsOnPoints([]*object.Point{p}, h, v)
+			b, e2 := shape.GetExtendedSpatialIdsOnPoints([]*object.Point{q}, h, v)
+			if e1 != nil || e2 != nil || a[0] == b[0] {
+				continue
+			}
+			// (the case line carries the RAW coordinates: the op stores them once, exactly as a caller would)
+			return fbits(rlon) + ":" + fbits(lat) + ":" + fbits(ralt) + ":" + fbits(oracleU(p.Lat())), true
+		}
+		return "", false
+	}
 	register("points", func(n int) {
 		for i := 0; i < n; i++ {
 			h, v := randZoom(), randZoom()
+			if rng.Intn(20) == 0 {
+				hh := int64(27 + rng.Intn(9))
+				if it, ok := reTruncPoint(hh, v); ok {
+					do("pts", it, s(hh), s(v))
+					continue
+				}
+			}
 			k := 1
 			if rng.Intn(4) == 0 {
 				k = rng.Intn(4)
@@ -280,6 +315,13 @@ func init() {
 					l = append(l, join4(q[0], q[1], alts[rng.Intn(na)], q[3]))
 					if rng.Intn(8) == 0 { // the same point object again, next to itself
 						l = append(l, l[len(l)-1])
+					}
+				}
+				if rng.Intn(10) == 0 { // a nil element somewhere in a long list, also at its very end
+					if rng.Intn(2) == 0 {
+						l = append(l, "nil:0:0:0")
+					} else {
+						l[rng.Intn(len(l))] = "nil:0:0:0"
 					}
 				}
 			} else {
